@@ -40,7 +40,7 @@
 (* collection is running the abstract state is the snapshot taken when it  *)
 (* started, and the last phase step is the abstract Collect.               *)
 (***************************************************************************)
-EXTENDS Naturals, FiniteSets, Sequences, TLC
+EXTENDS Naturals, FiniteSets, Sequences, SequencesExt, TLC
 
 CONSTANTS MaxN, MaxH, MaxE, MaxP, MaxM, AllowArm, Patched
 
@@ -50,11 +50,10 @@ vars == <<nalloc, nodes, H, E, armed, rc, EB, MB, gc, snap, obs, ist>>
 Cnt(B, p)    == IF p \in DOMAIN B THEN B[p] ELSE 0
 BagAdd(B, p) == IF p \in DOMAIN B THEN [B EXCEPT ![p] = @ + 1] ELSE B @@ (p :> 1)
 BagDel(B, p) == IF B[p] > 1 THEN [B EXCEPT ![p] = @ - 1] ELSE [q \in DOMAIN B \ {p} |-> B[q]]
-Min(a, b)    == IF a < b THEN a ELSE b
+Lesser(a, b)    == IF a < b THEN a ELSE b
 Monus(a, b)  == IF a > b THEN a - b ELSE 0       \* a release below zero is state corruption: see RcExact
-RECURSIVE Sorted(_)
-Sorted(S) == IF S = {} THEN <<>> ELSE LET m == CHOOSE x \in S : \A y \in S : x <= y IN <<m>> \o Sorted(S \ {m})
-Range(s) == {s[i] : i \in DOMAIN s}
+Sorted(S) == SetToSortSeq(S, LAMBDA a, b : a < b)      \* ascending = allocation order (native in TLC)
+Elems(s) == {s[i] : i \in DOMAIN s}
 
 Idle == gc.phase = "idle"
 Held(a)     == a \in nodes /\ H[a] > 0
@@ -186,16 +185,20 @@ MapOK(m) == m \in DOMAIN MB /\ MB[m].rc = 1 /\ HolderOK(MB[m].h)
 \* RawWeakMap::insert: an occupied slot is removed (its Ephemeron handle is dropped), a new Ephemeron is allocated
 WmInsert(m, k, v) ==
   /\ Idle /\ MapOK(m) /\ Held(k) /\ Held(v) /\ Len(EB) < MaxP
-  /\ EB' = Append([x \in DOMAIN EB |-> IF x \in EntryOf(m, k) THEN [EB[x] EXCEPT !.rc = 0, !.intab = FALSE] ELSE EB[x]],
-                  Box("ent", k, v, m))
+  /\ LET old == EntryOf(m, k) IN
+       EB' = Append(IF old = {} THEN EB
+                    ELSE [x \in DOMAIN EB |-> IF x \in old THEN [EB[x] EXCEPT !.rc = 0, !.intab = FALSE] ELSE EB[x]],
+                    Box("ent", k, v, m))
   /\ rc' = [rc EXCEPT ![v] = @ + 1]
   /\ obs' = [op |-> "wmins", m |-> m, k |-> k, v |-> v]
   /\ UNCHANGED <<nalloc, nodes, H, E, armed, MB>> /\ Quiet
 
 WmRemove(m, k) ==
   /\ Idle /\ MapOK(m) /\ Held(k)
-  /\ EB' = [x \in DOMAIN EB |-> IF x \in EntryOf(m, k) THEN [EB[x] EXCEPT !.rc = 0, !.intab = FALSE] ELSE EB[x]]
-  /\ obs' = [op |-> "wmrem", m |-> m, k |-> k, r |-> IF EntryOf(m, k) # {} THEN 1 ELSE 0]
+  /\ LET old == EntryOf(m, k) IN
+       /\ EB' = IF old = {} THEN EB
+                ELSE [x \in DOMAIN EB |-> IF x \in old THEN [EB[x] EXCEPT !.rc = 0, !.intab = FALSE] ELSE EB[x]]
+       /\ obs' = [op |-> "wmrem", m |-> m, k |-> k, r |-> IF old # {} THEN 1 ELSE 0]
   /\ UNCHANGED <<nalloc, nodes, H, E, armed, rc, MB>> /\ Quiet
 
 WmGet(m, k) ==
@@ -241,10 +244,10 @@ StartCollect ==
 
 \* handles found inside the heap, per target; inc_non_root_count saturates at ref_count
 HeapHandlesN(n, srcs, boxes) ==
-  LET S == {a \in srcs : <<a, n>> \in DOMAIN E}
-      RECURSIVE Sum(_)
-      Sum(T) == IF T = {} THEN 0 ELSE LET a == CHOOSE a \in T : TRUE IN E[<<a, n>>] + Sum(T \ {a})
-  IN Sum(S) + Cardinality({x \in boxes : EB[x].alive /\ EB[x].data /\ EB[x].kind # "weak" /\ EB[x].v = n})
+  LET S == {p \in DOMAIN E : p[2] = n /\ p[1] \in srcs}
+      RECURSIVE Sum(_)      \* sum of the multiplicities E[p], p \in S
+      Sum(c) == IF c > MaxE THEN 0 ELSE Cardinality({p \in S : E[p] >= c}) + Sum(c + 1)
+  IN Sum(1) + Cardinality({x \in boxes : EB[x].data /\ EB[x].kind # "weak" /\ EB[x].v = n /\ EB[x].alive})
 HeapHandlesB(x, srcs, maps) ==
   IF \/ EB[x].kind = "eph" /\ EB[x].h \in srcs
      \/ EB[x].kind = "ent" /\ EB[x].intab /\ EB[x].h \in maps THEN 1 ELSE 0
@@ -253,9 +256,9 @@ AliveB == {x \in DOMAIN EB : EB[x].alive}
 BoxM   == {m \in DOMAIN MB : MB[m].box}
 
 Recount ==
-  [gc EXCEPT !.nrcN = [n \in nodes |-> Min(rc[n], HeapHandlesN(n, nodes, AliveB))],
-             !.nrcB = [x \in DOMAIN EB |-> IF EB[x].alive THEN Min(EB[x].rc, HeapHandlesB(x, nodes, BoxM)) ELSE 0],
-             !.nrcM = [m \in DOMAIN MB |-> IF MB[m].box THEN Min(MB[m].rc, HeapHandlesM(m, nodes)) ELSE 0]]
+  [gc EXCEPT !.nrcN = [n \in nodes |-> Lesser(rc[n], HeapHandlesN(n, nodes, AliveB))],
+             !.nrcB = [x \in DOMAIN EB |-> IF EB[x].alive THEN Lesser(EB[x].rc, HeapHandlesB(x, nodes, BoxM)) ELSE 0],
+             !.nrcM = [m \in DOMAIN MB |-> IF MB[m].box THEN Lesser(MB[m].rc, HeapHandlesM(m, nodes)) ELSE 0]]
 
 TraceNonRoots ==
   /\ gc.phase = "tnr"
@@ -263,19 +266,22 @@ TraceNonRoots ==
   /\ UNCHANGED <<Heap, snap, obs, ist>>
 
 \* Tracer::trace_until_empty from a set of enqueued node boxes / map boxes: marked boxes are skipped
-RECURSIVE GrowN(_, _)
-GrowN(S, avoid) ==
-  LET T == S \cup {b \in nodes \ avoid : \E a \in S : <<a, b>> \in DOMAIN E}
-  IN IF T = S THEN S ELSE GrowN(T, avoid)
+RECURSIVE GrowN(_, _, _)
+GrowN(seen, front, avoid) ==
+  IF front = {} THEN seen
+  ELSE LET nxt == {p[2] : p \in {q \in DOMAIN E : q[1] \in front}} \ (seen \cup avoid)
+       IN GrowN(seen \cup nxt, nxt, avoid)
 TraceMaps(mk, ms) ==
   LET newM == {m \in ms : MB[m].box} \ mk.m
   IN [mk EXCEPT !.m = @ \cup newM,
                 !.b = @ \cup {x \in AliveB : EB[x].kind = "ent" /\ EB[x].intab /\ EB[x].h \in newM}]
 TraceNodes(mk, start) ==
-  LET newN == GrowN((start \cap nodes) \ mk.n, mk.n)
-      mk1  == [mk EXCEPT !.n = @ \cup newN,
-                         !.b = @ \cup {x \in AliveB : EB[x].kind = "eph" /\ EB[x].h \in newN}]
-  IN TraceMaps(mk1, {m \in DOMAIN MB : MB[m].h \in newN})
+  LET s0 == (start \cap nodes) \ mk.n IN
+  IF s0 = {} THEN mk
+  ELSE LET newN == GrowN(s0, s0, mk.n)
+           mk1  == [mk EXCEPT !.n = @ \cup newN,
+                              !.b = @ \cup {x \in AliveB : EB[x].kind = "eph" /\ EB[x].h \in newN}]
+       IN TraceMaps(mk1, {m \in DOMAIN MB : MB[m].h \in newN})
 
 RootedN == {n \in nodes : gc.nrcN[n] < rc[n]}
 RootedM == {m \in BoxM : gc.nrcM[m] < MB[m].rc}
@@ -293,13 +299,12 @@ EphTrace(mk, x) ==
   ELSE IF EB[x].k \notin mk.n THEN [mk |-> mk, ok |-> FALSE]
   ELSE [mk |-> IF EB[x].kind = "weak" THEN mk ELSE TraceNodes(mk, {EB[x].v}), ok |-> TRUE]
 
-RECURSIVE EphPass(_, _, _, _)
-EphPass(ids, mk, pend, rooting) ==
-  IF ids = <<>> THEN [mk |-> mk, pend |-> pend]
-  ELSE LET x   == Head(ids)
-           mk1 == IF rooting /\ x \in RootedB THEN [mk EXCEPT !.b = @ \cup {x}] ELSE mk
-           t   == EphTrace(mk1, x)
-       IN EphPass(Tail(ids), t.mk, IF t.ok THEN pend ELSE pend \cup {x}, rooting)
+\* one pass over the boxes `ids` in allocation (= id) order: [mk |-> marks afterwards, pend |-> boxes not traced].
+\* A left fold (native in TLC), so that long box lists do not cost recursion depth.
+EphPass(ids, mk0) ==
+  FoldLeft(LAMBDA acc, x : LET t == EphTrace(acc.mk, x)
+                           IN [mk |-> t.mk, pend |-> IF t.ok THEN acc.pend ELSE acc.pend \cup {x}],
+           [mk |-> mk0, pend |-> {}], Sorted(ids))
 
 \* the WeakGc a WeakMapBox keeps on its map: rooted while the WeakMapBox exists; traced iff the map box is marked
 WkAlive == {m \in DOMAIN MB : MB[m].wkalive}
@@ -308,7 +313,7 @@ WkTraced(mk, m) == m \in mk.w /\ (~MB[m].wkdata \/ m \in mk.m)
 \* steps 1 and 2 of the weak mark phase
 MarkEphInit ==
   /\ gc.phase = "eph"
-  /\ LET r   == EphPass(Sorted(AliveB), gc.mk, {}, TRUE)
+  /\ LET r   == EphPass(AliveB, [gc.mk EXCEPT !.b = @ \cup RootedB])   \* "if header.is_rooted() { header.mark() }"
          mkw == [r.mk EXCEPT !.w = @ \cup {m \in WkAlive : MB[m].wkrc = 1 \/ (MB[m].wmb /\ MB[m].wkdata)}]
      IN gc' = [gc EXCEPT !.mk = mkw, !.pend = r.pend,
                          !.pendW = {m \in WkAlive : ~WkTraced(mkw, m)}, !.phase = "ephloop"]
@@ -317,7 +322,7 @@ MarkEphInit ==
 \* step 3: one round over the pending ephemerons; stop when a round removes nothing
 MarkEphRound ==
   /\ gc.phase = "ephloop"
-  /\ LET r  == EphPass(Sorted(gc.pend), gc.mk, {}, FALSE)
+  /\ LET r  == EphPass(gc.pend, gc.mk)
          pw == {m \in gc.pendW : ~WkTraced(r.mk, m)}
          done == Cardinality(r.pend) + Cardinality(pw) = Cardinality(gc.pend) + Cardinality(gc.pendW)
      IN gc' = [gc EXCEPT !.mk = r.mk, !.pend = r.pend, !.pendW = pw,
@@ -377,7 +382,7 @@ Release ==
      ELSE LET dn == nodes \ gc.mk.n
               db == AliveB \ gc.mk.b
               dm == BoxM \ gc.mk.m
-          IN /\ rc' = [n \in nodes |-> IF n \in gc.mk.n THEN Monus(rc[n], Min(rc[n], HeapHandlesN(n, dn, db))) ELSE rc[n]]
+          IN /\ rc' = [n \in nodes |-> IF n \in gc.mk.n THEN Monus(rc[n], Lesser(rc[n], HeapHandlesN(n, dn, db))) ELSE rc[n]]
              /\ EB' = [x \in DOMAIN EB |-> IF x \in gc.mk.b THEN [EB[x] EXCEPT !.rc = Monus(@, HeapHandlesB(x, dn, dm))] ELSE EB[x]]
              /\ MB' = [m \in DOMAIN MB |-> IF m \in gc.mk.m THEN [MB[m] EXCEPT !.rc = Monus(@, HeapHandlesM(m, dn))] ELSE MB[m]]
   /\ gc' = [gc EXCEPT !.phase = "sweep"]
@@ -405,8 +410,8 @@ ClearWeakMaps ==
          EB1  == [x \in DOMAIN EB |-> IF EB[x].alive /\ EB[x].kind = "ent" /\ EB[x].intab /\ ~EB[x].data /\ EB[x].h \in live
                                        THEN [EB[x] EXCEPT !.intab = FALSE, !.rc = Monus(@, 1)] ELSE EB[x]]
      IN /\ MB' = MB1 /\ EB' = EB1
-        /\ obs' = [op |-> "collect", fin |-> Range(gc.flog), drop |-> Range(gc.dlog),
-                   res |-> Range(gc.flog) \ Range(gc.dlog),
+        /\ obs' = [op |-> "collect", fin |-> Elems(gc.flog), drop |-> Elems(gc.dlog),
+                   res |-> Elems(gc.flog) \ Elems(gc.dlog),
                    st |-> Cardinality(nodes) + Cardinality({m \in DOMAIN MB : MB[m].box})]
         /\ ist' = <<Cardinality({x \in DOMAIN EB1 : EB1[x].alive}) + Cardinality({m \in DOMAIN MB1 : MB1[m].wkalive}),
                     Cardinality({m \in DOMAIN MB1 : MB1[m].wmb})>>
@@ -447,8 +452,8 @@ NoDangling ==
                EB[x].k \in nodes /\ (EB[x].kind # "weak" => EB[x].v \in nodes)
 
 NoDup(s) == \A i, j \in DOMAIN s : i # j => s[i] # s[j]
-FinalizeOncePerCollection == NoDup(gc.flog) /\ (gc.phase \in {"release", "sweep", "clearwm"} => Range(gc.flog) = gc.deadN)
-DropAtMostOnce == NoDup(gc.dlog) /\ Range(gc.dlog) \cap nodes = {}
+FinalizeOncePerCollection == NoDup(gc.flog) /\ (gc.phase \in {"release", "sweep", "clearwm"} => Elems(gc.flog) = gc.deadN)
+DropAtMostOnce == NoDup(gc.dlog) /\ Elems(gc.dlog) \cap nodes = {}
 
 \* a WeakGc upgrades iff its target is live (targets that were resurrected are excepted: their rows are cleared)
 UpgradeIffLive ==
